@@ -4,14 +4,14 @@
     spec full    <49 ints> <id>      ->  ok <hex> <kind> <fields>      | bad-wf | bad-op
     spec compact <22 ints> <id>
     spec event   <12 ints> <id>
-    spec fru     <11 ints> <id>
+    spec fru     <12 ints> <id>      (… logical/physical, channel [7:4], reserved [3:0] of byte 9, device type …)
     spec mc      <9 ints>  <id>
-    spec conf    <10 ints> <guid: n,n,…>
+    spec conf    <11 ints> <guid: n,n,…>   (… device id, channel [7:4], device revision [3:0] of byte 8, …)
     spec opaque  <id> <version> <type> <hex body>
          the specification's encoder and view (Spec.Sdr); ints in structure order.
-    parse <acc><rate><mod><idtype><bcd><six> <hex>
+    parse <acc><rate><mod><idtype><bcd><six><bcdFruTable><chanRaw> <hex>
                                      ->  ok <kind> <fields> | <extra fields>   | <error tag>
-         the model (SdrParse.parseSdr) with the six variant flags (1 = as shipped).
+         the model (SdrParse.parseSdr) with the eight variant flags (1 = as shipped).
 
   <id> ::= u:<n,…> | b:<n,…> (digits, two per byte) | s:<n,…> (6-bit codes) | a:<n,…>   (`-` = empty)
   <fields> ::= name=value …   value ::= nat | int | [n,…]
@@ -112,11 +112,11 @@ def specEvent (a : List Int) (ids : IdString) : Option String :=
 
 def specFru (a : List Int) (ids : IdString) : Option String :=
   match a with
-  | [rid, ver, aa, fid, lp, ch, dt, dtm, eid, einst, oem] => do
+  | [rid, ver, aa, fid, lp, ch, chlow, dt, dtm, eid, einst, oem] => do
     let r : FruLocator := {
       recordId := ← nat? rid, version := ← nat? ver, accessAddress := ← nat? aa,
       fruDeviceId := ← nat? fid, logicalPhysical := ← nat? lp, channelNumber := ← nat? ch,
-      deviceType := ← nat? dt, deviceTypeModifier := ← nat? dtm, entityId := ← nat? eid,
+      channelLow := ← nat? chlow, deviceType := ← nat? dt, deviceTypeModifier := ← nat? dtm, entityId := ← nat? eid,
       entityInstance := ← nat? einst, oem := ← nat? oem, idString := ids }
     pure (answer r.wf r.encode .fruLocator r.view)
   | _ => none
@@ -134,10 +134,10 @@ def specMc (a : List Int) (ids : IdString) : Option String :=
 
 def specConf (a : List Int) (guid : List Nat) : Option String :=
   match a with
-  | [rid, ver, sa, did, ch, f1, f2, iv, mid, pid] => do
+  | [rid, ver, sa, did, ch, rev, f1, f2, iv, mid, pid] => do
     let r : McConfirmation := {
       recordId := ← nat? rid, version := ← nat? ver, slaveAddress := ← nat? sa,
-      deviceId := ← nat? did, channelRevision := ← nat? ch, firmwareRevision1 := ← nat? f1,
+      deviceId := ← nat? did, channelNumber := ← nat? ch, deviceRevision := ← nat? rev, firmwareRevision1 := ← nat? f1,
       firmwareRevision2 := ← nat? f2, ipmiVersion := ← nat? iv, manufacturerId := ← nat? mid,
       productId := ← nat? pid, guid := guid }
     pure (answer r.wf r.encode .mcConfirmation r.view)
@@ -147,7 +147,7 @@ def flag (c : Char) : Bool := c == '1'
 
 def parseVariant (s : String) : Option SdrParse.Variant :=
   match s.toList with
-  | [a, b, c, d, e, f] => some ⟨flag a, flag b, flag c, flag d, flag e, flag f⟩
+  | [a, b, c, d, e, f, g, h] => some ⟨flag a, flag b, flag c, flag d, flag e, flag f, flag g, flag h⟩
   | _ => none
 
 def handleC16 (line : String) : String :=
